@@ -74,7 +74,7 @@ def main():
         print(c, results[c])
     meta_out = {'property': prop, 'summary': meta.get('summary'), 'needs': meta.get('needs'), 'files': meta.get('files'),
                 'confirmed': ran, 'checks': results,
-                'what_i_ran': [f'pytest in {wt} with the change', 'demo.py with and without the change (git stash)',
+                'what_i_ran': [f'pytest in {wt} with the change', 'demo.py with and without the change (git apply -R, re-applied afterwards)',
                                f'./check <id> --tier {tier} with VERIF_REPO={wt}']}
     old = os.path.join(dest, 'meta.json')
     if os.path.exists(old):
